@@ -325,6 +325,17 @@ class Snap(object):
     def snapshot(self):
         c = self.col
         d = {'errors': [type(e).__name__ for e in c.errors]}
+        # the messages, with the document's own namespace URI written as '{NS}' (a qualified tag in a message
+        # is the same tag under every URI)
+        root = c.xmlnode.getroot().tag
+        ns = root[1:].split('}')[0] if root.startswith('{') else None
+        msgs = []
+        for e in c.errors:
+            m = str(getattr(e, 'msg', e))
+            if ns:
+                m = m.replace('{' + ns + '}', '{NS}')
+            msgs.append(m)
+        d['error_messages'] = msgs
         d['asset'] = self.asset(c.assetInfo)
         d['images'] = [self.image(x) for x in c.images]
         d['effects'] = [self.effect(x) for x in c.effects]
@@ -464,6 +475,15 @@ def main():
         try:
             if doc.get('path'):
                 r = guarded(lambda: load_snapshot(None, doc.get('ignore', False), path=doc['path']), 60)
+            elif doc.get('zip'):
+                # an archive holding several documents: [[entry name, text], ...] - pycollada picks the document
+                import zipfile
+                buf = io.BytesIO()
+                with zipfile.ZipFile(buf, 'w') as z:
+                    for name, text in doc['zip']:
+                        z.writestr(name, text.encode('utf-8'))
+                data = buf.getvalue()
+                r = guarded(lambda: load_snapshot(data, doc.get('ignore', False)), 20)
             else:
                 r = guarded(lambda: load_snapshot(doc['xml'].encode('utf-8'), doc.get('ignore', False)),
                             6 if len(doc['xml']) < 200000 else 60)
